@@ -847,3 +847,44 @@ Proof.
   assert (Hmy : 0 <= (y + oy) mod h < h) by (apply Z.mod_pos_bound; lia).
   repeat constructor; unfold fits; fold P; lia.
 Qed.
+
+(* ------------------------------------------------------------------ audit follow-up: the functions tied together *)
+Theorem local_eth_in_eth_coords : forall x y w h rx ry e,
+  board_eth (rx, ry) (x, y) e -> in_machine w h e ->
+  spinn5_local_eth_coord x y w h rx ry = Ok e /\ In e (spinn5_eth_coords w h rx ry).
+Proof.
+  intros x y w h rx ry e He Hm. split; [apply local_eth_ragged; assumption|].
+  apply (proj2 (eth_coords_exact w h rx ry)). split; [exact Hm | exact (proj1 He)].
+Qed.
+
+Theorem local_eth_in_eth_coords_torus : forall w h rx ry x y,
+  full_torus w h -> in_machine w h (x, y) ->
+  exists e, spinn5_local_eth_coord x y w h rx ry = Ok e /\ In e (spinn5_eth_coords w h rx ry).
+Proof.
+  intros w h rx ry x y Ht Hc.
+  destruct (local_eth_is_board_eth_torus w h rx ry x y Ht Hc) as (e & He & Hm & Heth & _).
+  exists e. split; [exact He|]. apply (proj2 (eth_coords_exact w h rx ry)). split; assumption.
+Qed.
+
+Lemma ex_eth_lists :
+  spinn5_eth_coords 24 12 3 5 = [(3, 5); (7, 1); (11, 9); (15, 5); (19, 1); (23, 9)] /\
+  spinn5_eth_coords 16 20 0 0 = [(0, 0); (4, 8); (8, 4); (0, 12); (8, 16); (12, 0); (12, 12)].
+Proof. split; vm_compute; reflexivity. Qed.
+
+(* a single board as an 8 x 8 machine: chip (5, 0) of the bounding box belongs to the board at (4, -4),
+   which is not in the machine; the function answers wrap = (4, 4), which is not an Ethernet chip *)
+Lemma ex_ragged_outside :
+  in_machine 8 8 (5, 0) /\ board_eth (0, 0) (5, 0) (4, -4) /\ ~ in_machine 8 8 (4, -4) /\
+  spinn5_local_eth_coord 5 0 8 8 0 0 = Ok (4, 4) /\ ~ is_eth (0, 0) (4, 4) /\
+  ~ In (4, 4) (spinn5_eth_coords 8 8 0 0).
+Proof.
+  split; [unfold in_machine; cbn [fst snd]; lia|].
+  split; [split; [exists 0, (-1), (4, 8); split; [right; left; reflexivity | cbn [fst snd]; lia]
+                 | unfold on_board, board_shape; cbn [fst snd]; lia]|].
+  split; [unfold in_machine; cbn [fst snd]; lia|].
+  split; [reflexivity|].
+  assert (Hne : ~ is_eth (0, 0) (4, 4)).
+  { intros (i & j & d & Hd & Hx & Hy). apply In_eth_offsets in Hd. cbn [fst snd] in Hx, Hy.
+    destruct Hd as [-> | [-> | ->]]; cbn [fst snd] in Hx, Hy; lia. }
+  split; [exact Hne|]. intros Hin. apply (proj2 (eth_coords_exact 8 8 0 0)) in Hin. exact (Hne (proj2 Hin)).
+Qed.
